@@ -8,6 +8,10 @@ M  : spec/Rlp.tla checked against itself, exhaustively in small scopes:
                       samples are TypedCanonical, strict => design-accepted, design-accepted-but-not-strict is classified,
                       the normal form is strict, generator claims hold.  Design-level counterexamples of
                       AcceptImpliesCanonical (the named deviations of the coded decoders) are printed as CEX.
+       scope "big"    large inputs as compact descriptors (a list of cnt copies of an element / a size field announcing more than
+                      is present, as the value or as a field of a struct): the verdict-by-descriptor rule (BigAccept, BigGeneric)
+                      agrees with the parser for every descriptor with cnt <= 3; the driver expands the same descriptors to
+                      64 KiB .. 1 MiB.
 S  : the driver builds seeded REAL objects of every type (mode=seeds) and hands their encodings to the spec.
 G  : the same three runs print every case; python groups them into behaviours {ty, gen, cases}.
 T  : the driver `rlp` decodes every case with the real rlp.DecodeBytes into the real type, re-encodes, runs the generic
@@ -45,6 +49,7 @@ CHECK_DEADLOCK FALSE
 INV_ITEMS = "INVARIANT EncIsCanonical\nINVARIANT DecEncIdentity"
 INV_BYTES = "INVARIANT CanonicalIsEnc\nINVARIANT DecEncIdentity"
 INV_TYPED = "INVARIANT TypedSelfCheck\nCONSTRAINT DesignCex"
+INV_BIG = "INVARIANT BigSound"
 
 DUMMY_SEED = '{"ty":"Hash","k":0,"b":[128],"nodes":[1]}\n'
 GENERIC_BATCH = 400
@@ -110,8 +115,10 @@ def specials():
 # ---------------------------------------------------------------------------------------------- M + G
 def params(ctx):
     if ctx.quick:
-        return dict(items_large=False, nv=3, nodecap=8, seeds_k=3, seed_nodes=8, rnd=10, items_sample=4000, pairk=1)
-    return dict(items_large=True, nv=7, nodecap=1000, seeds_k=10, seed_nodes=30, rnd=40, items_sample=150000, pairk=4)
+        return dict(items_large=False, nv=3, nodecap=8, seeds_k=3, seed_nodes=8, rnd=10, items_sample=4000, pairk=1,
+                    big_sizes=[65536, 262148])
+    return dict(items_large=True, nv=7, nodecap=1000, seeds_k=10, seed_nodes=30, rnd=40, items_sample=150000, pairk=4,
+                big_sizes=[65536, 262148, 1048576])
 
 
 def printed_cases(res):
@@ -145,6 +152,26 @@ def generate(ctx):
     if p["items_sample"] and len(items) > p["items_sample"]:
         random.Random(ctx.seed).shuffle(items)
         items = items[:p["items_sample"]]
+    # M/G: large inputs as descriptors; the verdict-by-descriptor rule is checked against the parser for cnt <= 3
+    mg = ctx.tlc_must("Rlp", CFG % dict(dev=DEVIATIONS, scope="big", large="FALSE", nv=1, nodecap=1, pairk=0, maxmut=0, invs=INV_BIG),
+                      name="M_big", files=seedfile, timeout=1500, xss="512m")
+    if mg.violated:
+        raise vlib.Undecided("specification self-check failed (%s in %s)" % (mg.violated, mg.dir))
+    small = [v["d"] for v in mg.printed if isinstance(v, dict) and v.get("kind") == "D"]
+    bigs = {}
+    for d in small:
+        bigs.setdefault(d["ty"], []).append(dict(d, echo=True))
+        if d["cnt"] != 3:
+            continue
+        for size in p["big_sizes"]:
+            cnt = max(4, size // len(d["elem"]))
+            if d["kind"] == "repeat":
+                bigs[d["ty"]].append(dict(d, cnt=cnt, echo=False))
+            else:  # announce: the size field of cnt elements, 0 / 1 / 16 of them present
+                bigs[d["ty"]].append(dict(d, cnt=cnt, present={0: 0, 1: 1, 2: 16}[d["present"]], echo=False))
+    ctx.cov["large_inputs"] = {"descriptors_checked_small": len(small), "expanded_by_driver": sum(len(v) for v in bigs.values()),
+                               "sizes": p["big_sizes"], "types": len(bigs)}
+    bigbehs = [{"ty": ty, "gen": None, "rnd": 0, "cases": [], "big": bigs[ty]} for ty in sorted(bigs)]
     sp = specials()
     ctx.cov["generic_cases"] = {"byte_strings": len(generic), "items": len(items), "items_enumerated": mi.distinct, "large_inputs": len(sp)}
     generic = sp + generic + items
@@ -160,7 +187,7 @@ def generate(ctx):
                       name="MG_typed", files={"seeds.ndjson": seedtext}, timeout=3000, xss="512m", coverage=not ctx.quick)
     if mt.violated:
         raise vlib.Undecided("specification self-check failed (%s in %s)" % (mt.violated, mt.dir))
-    ctx.cov["exhaustive"] = mi.ok and mb.ok and mt.ok
+    ctx.cov["exhaustive"] = mi.ok and mb.ok and mt.ok and mg.ok
     if getattr(mt, "zero_actions", None):
         ctx.cov["coverage_zero_actions"] = mt.zero_actions
     # design-level counterexamples: replayed first
@@ -177,10 +204,11 @@ def generate(ctx):
         behs.append({"ty": ty, "gen": None, "rnd": 0, "cases": bycex[ty]})
     ncex = len(behs) - nw
     ctx.cov["design_counterexamples"] = {"cases": len(cexkeys), "classes": sorted({"+".join(sorted(v["disc"])) for v in cex})}
+    behs += bigbehs
     # generic batches
     for i in range(0, len(generic), GENERIC_BATCH):
         behs.append({"ty": "generic", "gen": None, "rnd": 0, "cases": [{"b": b, "mut": "", "cex": False} for b in generic[i:i + GENERIC_BATCH]]})
-    ngen = len(behs) - nw - ncex
+    ngen = len(behs) - nw - ncex - len(bigbehs)
     # typed groups: one behaviour per sample / real object
     groups = {}
     for v in printed_cases(mt):
@@ -195,8 +223,8 @@ def generate(ctx):
                 raise vlib.Undecided("seed numbering out of step")
             gen = {"k": s["k"]}
         behs.append({"ty": ty, "gen": gen, "seed": ctx.seed, "rnd": p["rnd"] if gen else 0, "cases": groups[(ty, sid)]})
-    ctx.note("behaviours: %d witnesses, %d design counterexample groups (%d cases), %d generic batches (%d cases), %d typed groups (%d cases, %d real objects)" % (
-        nw, ncex, len(cexkeys), ngen, len(generic), len(groups), sum(len(g) for g in groups.values()), len(seeds)))
+    ctx.note("behaviours: %d witnesses, %d design counterexample groups (%d cases), %d large-input groups (%d descriptors), %d generic batches (%d cases), %d typed groups (%d cases, %d real objects)" % (
+        nw, ncex, len(cexkeys), len(bigbehs), sum(len(b["big"]) for b in bigbehs), ngen, len(generic), len(groups), sum(len(g) for g in groups.values()), len(seeds)))
     ctx.cov["types"] = len({b["ty"] for b in behs if b["ty"] != "generic"})
     ops = {}
     for b in behs:
@@ -214,7 +242,7 @@ def judge(ctx, behs, selftest_too=False):
     vlib.write_ndjson(bpath, behs)
     trace = ctx.path("trace.ndjson")
     info = ctx.drive("rlp", trace, behaviours=bpath, timeout=1800, max_restarts=2000)
-    ncases = sum(len(b["cases"]) + b.get("rnd", 0) for b in behs)
+    ncases = sum(len(b["cases"]) + b.get("rnd", 0) + len(b.get("big", [])) for b in behs)
     ctx.cov["traces_validated_against_impl"] += len(behs)
     ctx.cov["evaluations"] += ncases
     ctx.cov["distinct_nontrivial"] += len({(b["ty"], json.dumps(k["b"])) for b in behs for k in b["cases"] if k["mut"] or b["ty"] == "generic"})
@@ -235,12 +263,27 @@ def judge(ctx, behs, selftest_too=False):
         e = events[missed[0] - 1]
         raise vlib.Undecided("design-level counterexample did not reproduce on the real code (specification drift): %s %s line %d" % (
             e.get("ty"), e.get("mut"), missed[0]))
-    # measured resource bound (declared as such)
-    allocs = [(e["alloc"], len(e["b"])) for e in events if e.get("ev") in ("dec", "gen")]
-    if allocs:
-        worst = max(allocs, key=lambda x: x[0] - 256 * x[1])
-        ctx.cov["alloc_measured"] = {"bound": "TotalAlloc delta <= 256*len + 1 MiB", "max_alloc_bytes": max(a for a, _ in allocs),
-                                     "worst_case": {"alloc": worst[0], "len": worst[1]}, "decodes": len(allocs)}
+    # measured resource bound (declared as such): observed maxima per decode form, accepted / rejected
+    forms = {}
+
+    def note(form, acc, alloc, cons):
+        f = forms.setdefault("%s/%s" % (form, "accepted" if acc else "rejected"), {"n": 0, "max_bytes_per_consumed_byte": 0.0, "max_fixed_bytes": 0})
+        f["n"] += 1
+        if cons >= 256:
+            f["max_bytes_per_consumed_byte"] = max(f["max_bytes_per_consumed_byte"], round(alloc / cons, 2))
+        else:
+            f["max_fixed_bytes"] = max(f["max_fixed_bytes"], alloc)
+    for e in events:
+        if e.get("ev") == "dec":
+            note("DecodeBytes", e["acc"], e["alloc"], e["scons"])
+            note("generic", e["gacc"], e["galloc"], e["gcons"])
+        elif e.get("ev") == "gen":
+            note("generic", e["gacc"], e["alloc"], e["cons"])
+        elif e.get("ev") == "big":
+            note("big DecodeBytes", e["d"]["acc"], e["d"]["alloc"], e["d"]["cons"])
+            note("big unlimited stream", e["u"]["acc"], e["u"]["alloc"], e["u"]["cons"])
+            note("big generic", e["g"]["acc"], e["g"]["alloc"], e["g"]["cons"])
+    ctx.cov["alloc_measured"] = {"bound": "TotalAlloc delta <= 192 * consumed bytes + 16 KiB for every decode form, accepted or rejected (Rlp_Mon AllocC, AllocK; consumed = bytes the decoder took from the reader before it returned)", "observed": forms}
     ctx.cov["accepted"] = sum(1 for e in events if e.get("ev") == "dec" and e.get("acc"))
     ctx.cov["rejected"] = sum(1 for e in events if e.get("ev") == "dec" and not e.get("acc"))
     ctx.cov["entry_calls"] = sum(len(e.get("ent", [])) for e in events if e.get("ev") == "dec")
@@ -289,7 +332,7 @@ def run(ctx):
                         "the mirror is compared with the source text on every run",
                         "p2p framing (Msg.Decode ignores bytes after the first value) and the database readers (rlp.Decode without a "
                         "trailing-bytes check) are outside AcceptImpliesCanonical: the types are decoded with rlp.DecodeBytes",
-                        "AllocBounded is a measured resource bound (runtime.MemStats.TotalAlloc delta <= 256*len + 1 MiB), not decided by the specification",
+                        "AllocBounded is a measured resource bound (runtime.MemStats.TotalAlloc delta <= 192 * consumed bytes + 16 KiB, calibrated on the unchanged tree; observed maxima in coverage.alloc_measured), not decided by the specification",
                         "consensus entry point: MessageHandler.HandleMsg wired to the real Proposal and Voter with EnableBls=false and "
                         "always-succeeding sortition verification; staking entry point: TxConverter.ApplyMessage on a state with one validator"]
     check_mirror(ctx)
